@@ -101,7 +101,7 @@ func extractLock(root string) (string, map[string]any, error) {
 		return "", nil, fmt.Errorf("Lock / LockWithTimeout not found")
 	}
 	lks := norm(p.src(lk.Body)) + " " + norm(p.src(lwt.Body))
-	for _, forbidden := range []string{"Unlock(", ".Rm(", ".Remove", "ReleaseIfStale(", "MakeStale("} {
+	for _, forbidden := range []string{"Unlock(", ".Rm(", ".Remove", "ReleaseIfStale(", "MakeStale(", "cancelStore.Cancel("} {
 		if strings.Contains(lks, forbidden) {
 			return "", nil, fmt.Errorf("Lock / LockWithTimeout: a waiting contender calls %s…): %s", forbidden, lks)
 		}
